@@ -1,25 +1,38 @@
-import Ledger.Proofs.SqlAccountsExpr
+import Ledger.Proofs.SqlAccountsSpec
 import Ledger.Proofs.SqlRunAccounts
 
 /-!
 C18b — bridge: `UpsertAccounts` (the SQL, under LeanPG) against `Ledger.Spec.upsertAccount`.
 
-* PROVED for every existing row and every batch row (`upsertAccounts_sem`): in the UPDATE branch
+* PROVED in general (`upsertAccounts_sem`): the WHOLE regenerated statement — the CTE chain `data_batch` (VALUES with casts) →
+  `existing_accounts` (inner join of `accounts` with the batch) → `updated_rows` (UPDATE accounts a … FROM data_batch d … RETURNING,
+  through the generic UPDATE … FROM library: first joining row, new row version, primary key check) → `inserted_rows` (INSERT …
+  SELECT … FROM data_batch d WHERE d.address NOT IN (SELECT address FROM existing_accounts) RETURNING … with the correlated
+  sub-query on `batch_index`) → `SELECT * FROM updated_rows UNION ALL SELECT * FROM inserted_rows` — run by LeanPG (`runStmt`)
+  on ANY `accounts` table satisfying the storage invariant `AcInv`, for ANY batch with distinct addresses and all dates given, ANY
+  other ledgers in the table: in what the transaction sees afterwards (`acAbs`, up to order) every account of the ledger touched by
+  a batch row (`updCond`: same address ∧ this ledger ∧ (lower first usage ∨ metadata not contained)) becomes `updRow` (metadata
+  `a || d`, first usage LEAST, updated_at of the batch row, insertion date kept), every batch row without an account of this
+  ledger is inserted as `insRow` (metadata `default || d`), every other row is unchanged; `AcInv` holds again.
+  ASSUMED (all explicit: `UpsertState`, `DbLit`): solo transaction, storage invariant, fresh command id; no row trigger on
+  INSERT / UPDATE of `accounts` (ACCOUNT_METADATA_HISTORY off — with the feature on, the history rows are an additional effect not
+  covered); the rendered literals parse to the typed values (Go rendering not modelled); batch addresses pairwise distinct; the
+  variant of the statement with explicit dates (COALESCE is lazy, so `transaction_date()` is not called).
+* PROVED for every existing row and every batch row (`upsertAccounts_update_sem`): in the UPDATE branch
   (`updated_rows`) of the regenerated statement, `first_usage` becomes `LEAST(d.first_usage, a.first_usage)`
   with NULL ignored, `metadata` becomes `a.metadata || d.metadata` (the batch wins on a common key),
   `insertion_date` is not among the SET items, and the WHERE clause holds iff same address, this ledger,
   and (the batch lowers `first_usage` or carries metadata the row does not contain).
-* NOT proved in general: the CTE chain (VALUES → join → UPDATE … FROM → INSERT … SELECT … WHERE NOT IN →
-  UNION ALL), the INSERT branch, and the correspondence jsonb ↔ `Spec.Metadata` (`jsonConcat` /
-  `jsonContains` vs `metaMerge` / `metaContains`). Fallback, labelled below: a BOUNDED REGRESSION
-  OBLIGATION by kernel evaluation on a concrete scenario, against `Spec.upsertAccount`.
+* NOT proved: the correspondence jsonb ↔ `Spec.Metadata` (`jsonConcat` / `jsonContains` on jsonb objects vs `metaMerge` /
+  `metaContains` on sorted maps) that would turn `updRow` / `insRow` / `updCond` into `Ledger.Spec.upsertAccount`; the kernel-evaluated
+  scenario below compares against `Spec.upsertAccount` on concrete data (BOUNDED REGRESSION OBLIGATION, through the session layer).
 -/
 namespace Ledger.C18b
 open Ledger Ledger.Sql Ledger.Generated Ledger.Generated.WriteSql
 open Ledger.Generated.WriteSql.P (AccountRow)
 
 /-- see `Ledger.Sql.upsertAccounts_update_exprs` -/
-theorem upsertAccounts_sem (cb : Callbacks) (te : TypeEnv) (env : Env) (b l : String) (id : Nat)
+theorem upsertAccounts_update_sem (cb : Callbacks) (te : TypeEnv) (env : Env) (b l : String) (id : Nat)
     (la addrA : String) (aaA : JV) (insA updA : Int) (mdA : JV) (fuA : Int)
     (addrD : String) (mdD : JV) (fuD insD updD : Option Int) (aaD dmD biD : JV) (src : Option (String × Nat)) (s : St) :
     ∃ (c1 : List AccountRow → Cte) (c2 c4 : Cte) (body : SetExpr) (eMd eFu eUp wher : Expr) (ret : List SelItem),
@@ -39,6 +52,34 @@ theorem upsertAccounts_sem (cb : Callbacks) (te : TypeEnv) (env : Env) (b l : St
                  else (match fuD with | some _ => some false | none => none))
               else some false), s)) :=
   upsertAccounts_update_exprs cb te env b l id la addrA aaA insA updA mdA fuA addrD mdD fuD insD updD aaD dmD biD src s
+
+/-- **`UpsertAccounts`**, the whole statement (general; see `Ledger.Sql.upsertAccounts_sem`). -/
+theorem upsertAccounts_sem (k : Nat) (env : Env) (b l : String) (id : Nat) (trigs : List TriggerDef) (nr : Nat) (rows : List Ver)
+    (s : St) (hst : UpsertState s b trigs nr rows) (henv : env.ctes = [])
+    (pm : List (AccountRow × DbR)) (hlits : ∀ x ∈ pm, DbLit s.w.types x.1 x.2) (hnd : ((pm.map (·.2)).map (·.address)).Nodup) :
+    ∃ (res : DmlResult) (rows' : List Ver) (n' : Nat),
+      ((P.upsertAccounts b l id (pm.map (·.1))).mapM (runStmt (k + 19) env)).exec s =
+        (.ok [res], s.withTable ((acT b trigs (nr + n')).withRows rows')) ∧
+      (acAbs (latestView s.w s.xid) rows').Perm
+        (((pm.map (·.2)).filter (fun d => !hasAccount l (acAbs (latestView s.w s.xid) rows) d.address)).map (insRow l) ++
+          (acAbs (latestView s.w s.xid) rows).map (updOf l (pm.map (·.2)))) ∧
+      AcInv (latestView s.w s.xid) (nr + n') rows' :=
+  Ledger.Sql.upsertAccounts_sem k env b l id trigs nr rows s hst henv pm hlits hnd
+
+/-- the pieces of the UPDATE branch and of the INSERT branch of the generated statement have the meaning the theorem uses
+    (`UpsertUpdSem`, `UpsertInsSem`; see `Ledger.Sql.upsertAccounts_shape4`) -/
+theorem upsertAccounts_shape (b l : String) (id : Nat) :
+    ∃ (eMd eFu eUp wherU : Expr) (items : List (Expr × String)) (wherI : Expr),
+      (∀ rows, P.upsertAccounts b l id rows =
+        [Stmt.query (Query.mk [Cte.mk "data_batch" dbCols (dataBatchStmt rows), Cte.mk "existing_accounts" [] (existingStmt b l),
+            Cte.mk "updated_rows" [] (Stmt.update [] b "accounts" "a"
+              [SetItem.mk "metadata" eMd, SetItem.mk "first_usage" eFu, SetItem.mk "updated_at" eUp]
+              [FromItem.table "" "data_batch" "d"] (some wherU) updReturning),
+            Cte.mk "inserted_rows" [] (Stmt.insert [] b "accounts" "" insCols
+              (InsertSrc.query (Query.mk [] (SetExpr.select (Select.mk false [] (items.map (fun p => SelItem.expr p.1 p.2))
+                [FromItem.table "" "data_batch" "d"] (some wherI) [] none)) [] none none LockMode.none)) none (insReturning b))] upsertBody [] none none LockMode.none)]) ∧
+      UpsertUpdSem l eMd eFu eUp wherU ∧ UpsertInsSem l items wherI :=
+  upsertAccounts_shape4 b l id
 
 /-! ### BOUNDED REGRESSION OBLIGATION (kernel evaluation on a concrete scenario; not a general theorem)
 
